@@ -5,6 +5,7 @@
 package rtsp
 
 import (
+	"github.com/cnotch/ipchub/utils/simhook"
 	"fmt"
 	"io"
 	"net"
@@ -37,6 +38,7 @@ type multicastProxy struct {
 }
 
 func (proxy *multicastProxy) AddMember(m io.Closer) {
+	simhook.BeforeLock(&proxy.multicastLock)
 	proxy.multicastLock.Lock()
 	defer proxy.multicastLock.Unlock()
 
@@ -72,6 +74,7 @@ func (proxy *multicastProxy) AddMember(m io.Closer) {
 }
 
 func (proxy *multicastProxy) ReleaseMember(m io.Closer) {
+	simhook.BeforeLock(&proxy.multicastLock)
 	proxy.multicastLock.Lock()
 	defer proxy.multicastLock.Unlock()
 	for i, m2 := range proxy.members {
@@ -131,6 +134,7 @@ func (proxy *multicastProxy) Consume(p Pack) {
 }
 
 func (proxy *multicastProxy) Close() error {
+	simhook.BeforeLock(&proxy.multicastLock)
 	proxy.multicastLock.Lock()
 	defer proxy.multicastLock.Unlock()
 
